@@ -7,10 +7,20 @@ import importlib
 import numpy as np
 
 
-def run_program(prog, seed, sg=None, repeat_fixed=1):
+def poison_free_memory(value):
+    """Fill many small buffers with `value` and free them: NumPy's allocation cache and malloc hand these blocks out
+    again, so a buffer the library forgets to initialise (np.empty) shows run-specific contents instead of zeros."""
+    for dtype in (np.float32, np.float64):
+        bufs = [np.full(n, value, dtype=dtype) for n in (1, 2, 3, 4, 5, 6, 8, 9, 12, 16, 24, 32, 48, 64, 100, 128, 256) for _ in range(6)]
+        del bufs
+
+
+def run_program(prog, seed, sg=None, repeat_fixed=1, poison=None):
     if sg is None:
         from .env import sg as _sg
         sg = _sg
+    if poison is not None:
+        poison_free_memory(poison)
     nn = sg.nn
     Tensor = sg.Tensor
     h = hashlib.sha256()
